@@ -368,6 +368,9 @@ impl<R: Read> ZeroCopyReader<R> {
     /// Ensure the buffer has at least `len` bytes available
     fn ensure_buffered(&mut self, len: usize) -> Result<()> {
         while self.buffer.available() < len && !self.eof {
+            if self.buffer.available() == self.buffer.capacity() {
+                break; // buffer is full of unread data: a 0-byte fill would not mean EOF
+            }
             let bytes_read = self.buffer.fill_from(&mut self.inner)
                 .map_err(|e| ZiporaError::io_error(format!("Fill buffer failed: {}", e)))?;
             if bytes_read == 0 {
